@@ -21,6 +21,10 @@ EXPLANATION = (
     "write shape (old & ~M) | ((v & m) << start) with M provably the mask of bits start..stop-1; R-C05-fit decides the "
     "accepted RHS region of slice/bit assignment; R-C05-helpers checks concat/zext/sext/trunc/reduce_* against their "
     "bit-level definitions; R-intlog forbids float logarithms for bit counts (clog2 must be (N-1).bit_length()). "
+    "R-C05-type-alias (sibling implementation: translated zext / trunc / sext / reductions) is a may-alias analysis of the RTLIR "
+    "type-check visitors: a type object is re-sized only when it is a fresh copy on every path, so the operand keeps its width. "
+    "By dependency: R-tr-slice for both back-ends, the visit_Reduce / visit_Concat clauses of R-tr-optable, the `int` clause of "
+    "R-C04-optable (sext is built on Bits.int()). "
     "Decides the addressed bit positions and error regions for every width; trusts C04 for the arithmetic.")
 ASSUMPTIONS = [
     "Python int/slice semantics; the C04 range invariant",
@@ -867,6 +871,26 @@ def rule_translated_slices(repo):
     return tr_util.rule_slice(repo, backend='sv')
 
 
+def rule_translated_slices_yosys(repo):
+    """the second back-end is a sibling implementation of the same selects: part- and bit-selects of the Yosys structural and
+    behavioural emitters must address [stop-1:start] of the named element, with array indices and the select kept in their own
+    slots -- shared with C12 (R-tr-slice, yosys)"""
+    from sa import tr_util
+    from rules.c12 import BACKEND
+    return tr_util.rule_slice(repo, backend=BACKEND)
+
+
+def rule_signed_reading(repo):
+    """sext (both spellings in helpers.py) is built on Bits.int(): the signed reading must be uint - 2^n when the msb is set, for
+    every width up to the largest one -- decided by C04's operator rule (R-C04-optable); only its `int` clause is C05's matter"""
+    from rules.c04 import rule_optable
+    res = rule_optable(repo)
+    mine = lambda t: 'Bits.int' in t or t.endswith('.int') or ' int' in t
+    res.findings = [f for f in res.findings if mine(f.func) or mine(f.construct)]
+    res.instances = [i for i in res.instances if i['verdict'] != 'VIOLATED' or mine(i['construct']) or mine(i.get('function', ''))]
+    return res
+
+
 def rule_translated_reductions(repo):
     """sibling implementation of the reduce operators and of concat: the SystemVerilog text emitted for reduce_and / _or / _xor
     (a unary reduction of the WHOLE operand) and for concat -- decided by C03's operator rule (R-tr-optable); only its
@@ -879,7 +903,229 @@ def rule_translated_reductions(repo):
     return res
 
 
-RULES = [rule_translated_reductions, rule_bounds, rule_nonefalsy, rule_frame, rule_fit, rule_helpers, rule_intlog, rule_signal_slices, rule_rtlir_slices,
+# ---------------------------------------------------------------------------------------------------------------
+# R-C05-type-alias
+_TC_FILES = [f"pymtl3/passes/rtlir/behavioral/BehavioralRTLIRTypeCheckL{k}Pass.py" for k in (1, 2, 3, 4, 5)]
+
+
+def rule_type_objects(repo):
+    """sibling implementation of zext / sext / trunc / reduce / index: the translators decide padding, size casts and selects
+    from the *operand's* type next to the result's type.  The type checker computes the result type of these nodes by re-sizing
+    a type object; if that object is (or may be) the operand's own type object, the operand silently takes the result width
+    and `zext(s.a[4:8], 8)` is emitted as the bare 4-bit operand.  So: an attribute store into an RTLIR type object is only
+    allowed on an object that is fresh on every path (copy.copy / copy.deepcopy / a constructor), also through helper methods."""
+    r = RuleResult('R-C05-type-alias', "the RTLIR type checker re-sizes only fresh copies of a type object: a store into an attribute "
+                                       "of a type (`T.dtype = ...`) never reaches the type object of a child node, a table entry or "
+                                       "an argument, on any path, also through helper methods")
+
+    FRESH, SHARED = 'fresh', 'shared'
+
+    def fresh_call(c):
+        fn = norm(c.func)
+        return fn in ('copy.copy', 'copy.deepcopy', 'copy', 'deepcopy') or fn.split('.')[0] in ('rt', 'rdt')
+
+    RTYPE = ['pymtl3/passes/rtlir/rtype/RTLIRType.py', 'pymtl3/passes/rtlir/rtype/RTLIRDataType.py']
+    memo = {}
+
+    def type_method(name, files=None):
+        """a method of the RTLIR type classes: FRESH if every definition returns a new object on every path (copy / constructor),
+        SHARED if some definition hands out an object it keeps, None if the type classes define no such method"""
+        files = tuple(files or RTYPE)
+        if (name, files) in memo:
+            return memo[name, files]
+        verdict = None
+        for rel in files:
+            if not repo.exists(rel):
+                continue
+            mm = repo.mod(rel)
+            for c in mm.classes.values():
+                for g in c.body:
+                    if isinstance(g, ast.FunctionDef) and g.name == name:
+                        local = {}
+                        ok = True
+                        for n in walk_no_nested(g):
+                            if isinstance(n, ast.Assign) and len(n.targets) == 1 and isinstance(n.targets[0], ast.Name):
+                                local.setdefault(n.targets[0].id, []).append(n.value)
+                        rets_ = [n for n in walk_no_nested(g) if isinstance(n, ast.Return)]
+                        for rt_ in rets_:
+                            v = rt_.value
+                            if isinstance(v, ast.Name) and v.id in local:
+                                vs = local[v.id]
+                            else:
+                                vs = [v]
+                            for x in vs:
+                                if not (isinstance(x, ast.Call) and (fresh_call(x) or (isinstance(x.func, ast.Name) and x.func.id in mm.classes))):
+                                    ok = False
+                        if not rets_:
+                            ok = False
+                        verdict = FRESH if (ok and verdict in (None, FRESH)) else SHARED
+        memo[name, files] = verdict
+        return verdict
+
+    def analyse(m, cls, f, bind, depth, site, out):
+        """bind: parameter name -> origin set; returns the origins of the returned value"""
+        me = f.args.args[0].arg if f.args.args else None
+        node_param = f.args.args[1].arg if len(f.args.args) > 1 else None
+        env = dict(bind)
+        rets = set()
+
+        def orig(e):
+            if isinstance(e, ast.Name):
+                return set(env.get(e.id, ()))
+            if isinstance(e, ast.IfExp):
+                return orig(e.body) | orig(e.orelse)
+            if isinstance(e, ast.BoolOp):
+                return set().union(*[orig(v) for v in e.values])
+            if isinstance(e, ast.NamedExpr):
+                return orig(e.value)
+            if isinstance(e, ast.Attribute):
+                if e.attr == 'Type':
+                    key = norm(e)
+                    if key in env:
+                        return set(env[key])
+                    return {SHARED + ':' + key}
+                return set()
+            if isinstance(e, ast.Subscript):
+                return {SHARED + ':' + norm(e)} if orig_is_table(e) else set()
+            if isinstance(e, ast.Call):
+                if fresh_call(e):
+                    return {FRESH}
+                fn = e.func
+                if isinstance(fn, ast.Attribute) and isinstance(fn.value, ast.Name) and fn.value.id == me and depth < 3:
+                    g = repo.lookup_method(m, cls, fn.attr)
+                    if g is not None:
+                        gm, gcls, gf = g
+                        params = [a.arg for a in gf.args.args[1:]]
+                        b = {pn: orig(a) for pn, a in zip(params, e.args)}
+                        for kw in e.keywords:
+                            if kw.arg in params:
+                                b[kw.arg] = orig(kw.value)
+                        return analyse(gm, gcls, gf, b, depth + 1, site or (m, f, e), out)
+                if isinstance(fn, ast.Attribute):
+                    # receiver `<node>.Type` is an instance type (RTLIRType.py); anything else may also be a data type
+                    k = type_method(fn.attr, RTYPE[:1] if isinstance(fn.value, ast.Attribute) and fn.value.attr == 'Type' else None)
+                    if k == FRESH:
+                        return {FRESH}
+                    if k == SHARED or fn.attr in ('get_rtlir', 'get', 'pop', 'setdefault'):
+                        return {SHARED + ':' + norm(e)}
+                return set()
+            return set()
+
+        def orig_is_table(e):
+            # s.tmpvars[...] and other tables of the visitor hold types shared by every reference
+            b = e.value
+            return isinstance(b, ast.Attribute) and isinstance(b.value, ast.Name) and b.value.id == me
+
+        def store(t, val_orig):
+            if isinstance(t, ast.Name):
+                env[t.id] = val_orig
+            elif isinstance(t, ast.Attribute) and t.attr == 'Type':
+                env[norm(t)] = val_orig
+            elif isinstance(t, (ast.Tuple, ast.List)):
+                for x in t.elts:
+                    store(x, set())
+
+        def mutation(t, st):
+            """t: Attribute store target `A.attr`; A a type object?"""
+            if t.attr == 'Type':
+                return
+            o = orig(t.value)
+            if not o:
+                return
+            cons = f"{norm(t)} = ...  [{norm(t.value)} <- {', '.join(sorted(o))}]"
+            shared = sorted(x for x in o if x != FRESH)
+            out.append((m, f, st, cons, shared, site))
+
+        def run(body):
+            for st in body:
+                if isinstance(st, ast.Assign):
+                    v = orig(st.value)
+                    for t in st.targets:
+                        if isinstance(t, ast.Attribute) and t.attr != 'Type':
+                            mutation(t, st)
+                        else:
+                            store(t, v)
+                elif isinstance(st, ast.AnnAssign) and st.value is not None:
+                    store(st.target, orig(st.value))
+                elif isinstance(st, ast.AugAssign):
+                    if isinstance(st.target, ast.Attribute):
+                        mutation(st.target, st)
+                elif isinstance(st, ast.Expr) and isinstance(st.value, ast.Call) and norm(st.value.func) == 'setattr' and len(st.value.args) == 3:
+                    fake = ast.Attribute(value=st.value.args[0], attr='<setattr>', ctx=ast.Store())
+                    mutation(fake, st)
+                elif isinstance(st, ast.Expr):
+                    orig(st.value)       # helper calls made for their effect
+                elif isinstance(st, ast.Return):
+                    if st.value is not None:
+                        rets.update(orig(st.value))
+                elif isinstance(st, ast.If):
+                    before = dict(env)
+                    run(st.body)
+                    a = dict(env)
+                    env.clear(); env.update(before)
+                    run(st.orelse)
+                    for k in set(a) | set(env):
+                        env[k] = set(a.get(k, before.get(k, ()))) | set(env.get(k, before.get(k, ())))
+                elif isinstance(st, (ast.For, ast.While)):
+                    for _ in range(2):
+                        before = dict(env)
+                        run(st.body)
+                        for k in set(before) | set(env):
+                            env[k] = set(before.get(k, ())) | set(env.get(k, ()))
+                    run(st.orelse)
+                elif isinstance(st, ast.With):
+                    run(st.body)
+                elif isinstance(st, ast.Try):
+                    run(st.body)
+                    for h in st.handlers:
+                        run(h.body)
+                    run(st.orelse); run(st.finalbody)
+        run(f.body)
+        return rets
+
+    seen = set()
+    # helper methods are judged at their call sites (with the origins of the actual arguments); a method nobody calls through
+    # `self` is an entry point: its arguments may be anybody's type objects
+    helpers = set()
+    for rel in _TC_FILES:
+        if repo.exists(rel):
+            for n in ast.walk(repo.mod(rel).tree):
+                if isinstance(n, ast.Call) and isinstance(n.func, ast.Attribute) and isinstance(n.func.value, ast.Name) \
+                        and n.func.value.id in ('s', 'self') and not n.func.attr.startswith('visit'):
+                    helpers.add(n.func.attr)
+    if not any(repo.exists(rel) for rel in _TC_FILES):
+        raise AnalysisError("anchor vanished: no BehavioralRTLIRTypeCheckL*Pass.py")
+    for rel in _TC_FILES:
+        if not repo.exists(rel):
+            continue
+        m = repo.mod(rel)
+        for cname, cls in m.classes.items():
+            for f in cls.body:
+                if not isinstance(f, ast.FunctionDef) or f.name in helpers:
+                    continue
+                out = []
+                # a method analysed on its own: its parameters may be anybody's type objects
+                bind = {a.arg: {SHARED + ':argument ' + a.arg} for a in f.args.args[2:]}
+                analyse(m, cls, f, bind, 0, None, out)
+                for (mm, ff, st, cons, shared, site) in out:
+                    fq = f"{cname}.{f.name}" if ff is f else f"{cname}.{f.name} -> {ff.name}"
+                    key = (mm.rel, ff.name, st.lineno, fq)
+                    if key in seen:
+                        continue
+                    seen.add(key)
+                    if shared:
+                        via = f" (called from {norm(site[2])} in {site[1].name})" if site and ff is not f else ""
+                        r.bad(mm, fq, cons, f"the store re-sizes a type object that is not a fresh copy on every path: it is also "
+                              f"{shared[0][len(SHARED) + 1:] or 'a shared object'}{via}; every other reference to that object (the operand of "
+                              f"zext / trunc / a reduction, a temporary's table entry) silently takes the new width, so the translators "
+                              f"see operand width == target width and emit the bare operand", st.lineno)
+                    else:
+                        r.ok(mm, fq, cons)
+    r.require_floor(5)
+    return r
+
+
+RULES = [rule_type_objects, rule_translated_slices_yosys, rule_signed_reading, rule_translated_reductions, rule_bounds, rule_nonefalsy, rule_frame, rule_fit, rule_helpers, rule_intlog, rule_signal_slices, rule_rtlir_slices,
          rule_slice_nodes, rule_translated_slices, rule_value_semantics, rule_rtlir_slice_step, rule_alias, rule_const_fit, rule_width_tables, rule_operand_kinds]
 
 
@@ -891,6 +1137,9 @@ _DEF_NEW = """        start = 0 if idx.start is None else int(idx.start)
         stop  = self._nbits if idx.stop is None else int(idx.stop)
 """
 MUTANTS = [
+    _m('reduce-resizes-operand-type', "    node.Type = copy.copy( child_type )\n    node.Type.dtype = rdt.Vector( 1 )", "    node.Type = child_type\n    node.Type.dtype = rdt.Vector( 1 )", 'R-C05-type-alias', file='pymtl3/passes/rtlir/behavioral/BehavioralRTLIRTypeCheckL1Pass.py'),
+    _m('sizecast-resizes-before-copy', "    node.Type = copy.copy( Type )\n    node.Type.dtype = rdt.Vector( nbits )", "    Type.dtype = rdt.Vector( nbits )\n    node.Type = copy.copy( Type )", 'R-C05-type-alias', file='pymtl3/passes/rtlir/behavioral/BehavioralRTLIRTypeCheckL1Pass.py'),
+    _m('reduce-copies-net-wires-only', "    node.Type = copy.copy( child_type )\n    node.Type.dtype = rdt.Vector( 1 )", "    node.Type = copy.copy( child_type ) if not isinstance( child_type, rt.NetWire ) else child_type\n    node.Type.dtype = rdt.Vector( 1 )", 'R-C05-type-alias', file='pymtl3/passes/rtlir/behavioral/BehavioralRTLIRTypeCheckL1Pass.py'),
     _m('iadd-in-place', "  def __invert__( self ):", "  def __iadd__( self, other ):\n    self._uint = self.__add__( other )._uint\n    return self\n\n  def __invert__( self ):", 'R-C05-value'),
     _m('const-connect-truncates', "      o2 = Const( Type, Type(o2), s )", "      value = Type( o2, trunc_int=True ) if issubclass( Type, Bits ) else Type(o2)\n      o2 = Const( Type, value, s )", 'R-C05-const-fit', file='pymtl3/dsl/ComponentLevel3.py'),
     _m('const-connect-masked', "      o2 = Const( Type, Type(o2), s )", "      o2 = Const( Type, Type(o2 & ((1 << Type.nbits) - 1)), s )", 'R-C05-const-fit', file='pymtl3/dsl/ComponentLevel3.py'),
@@ -938,6 +1187,8 @@ MUTANTS = [
 ]
 
 EQUIV = [
+    _m('reduce-type-built-in-a-local', "    node.Type = copy.copy( child_type )\n    node.Type.dtype = rdt.Vector( 1 )", "    t = copy.copy( child_type )\n    t.dtype = rdt.Vector( 1 )\n    node.Type = t", file='pymtl3/passes/rtlir/behavioral/BehavioralRTLIRTypeCheckL1Pass.py'),
+    _m('sizecast-copy-on-both-arms', "    node.Type = copy.copy( Type )\n    node.Type.dtype = rdt.Vector( nbits )", "    node.Type = copy.deepcopy( Type ) if isinstance( Type, rt.Array ) else copy.copy( Type )\n    node.Type.dtype = rdt.Vector( nbits )", file='pymtl3/passes/rtlir/behavioral/BehavioralRTLIRTypeCheckL1Pass.py'),
     _m('setitem-clear-mask-local', "        self._uint = (sv & (~((1 << stop) - (1 << start)))) | \\\n                     ((v._uint & _upper[slice_nbits]) << start)", "        clear_mask = ~((1 << stop) - (1 << start))\n        self._uint = (sv & clear_mask) | \\\n                     ((v._uint & _upper[slice_nbits]) << start)"),
     _m('setitem-merge-value-hoisted', "        self._uint = (sv & (~((1 << stop) - (1 << start)))) | \\\n                     ((v._uint & _upper[slice_nbits]) << start)", "        ins = (v._uint & _upper[slice_nbits]) << start\n        self._uint  = sv & ~((1 << stop) - (1 << start))\n        self._uint |= ins", ),
     _m('zext-guard-clause', "  if isinstance( new_width, int ):\n    assert new_width >= value.nbits\n    return Bits( new_width, value.uint() )\n  else:\n    assert issubclass( new_width, Bits )\n    return new_width( value.uint() )\n",
